@@ -362,7 +362,7 @@ fn part_c_put(kind: usize, ro_mask: u8, out: &mut Partial) {
 // ------------------------------------------------------------------------------------------ (d)
 
 const NATS: [&str; 4] = ["reachable", "firewalled", "port-rewritten", "port-remapped-after-confirmation"];
-const VOTES: [&str; 3] = ["all-truthful", "one-liar", "tie"];
+const VOTES: [&str; 5] = ["all-truthful", "one-liar", "tie", "one-liar-higher-address", "one-liar-same-ip-higher-port"];
 const CONFS: [&str; 3] = ["adaptive", "server_mode()", "public_ip()"];
 
 thread_local! {
@@ -384,9 +384,17 @@ fn part_d(chooser: Chooser, nat: usize, votes: usize, conf: usize, faults: bool,
     w.track_states = track;
     w.keep_log = true;
     let ip = Ipv4Addr::new(93, 184, 216, 34);
-    let ids = crate::epnet::ranked_ids(&T, 4);
-    let net = EpNet::new(&mut w, &ids);
-    let boots = net.addrs();
+    // four voting peers and a fifth DHT node that shares the observed node's public IP (another
+    // host behind the same NAT, another port): the node queries it like any peer, and at minute
+    // 12 it pings the node - which is no confirmation of the node's own address
+    let ids = crate::epnet::ranked_ids(&T, 5);
+    let mut net = EpNet::new(&mut w, &ids);
+    let sibling = SocketAddrV4::new(ip, 51413);
+    let sib_ep = net.base + 4;
+    w.endpoints[sib_ep].addr = sibling;
+    net.eps[4].addr = sibling;
+    let boots: Vec<SocketAddrV4> = net.addrs()[..4].to_vec();
+    let mut sibling_pinged = false;
     let mut cfg = NodeCfg::new(ip.octets(), 7000).bootstrap(&boots).id([0x21; 20]);
     cfg.nat = match nat {
         0 => Nat::None,
@@ -420,13 +428,18 @@ fn part_d(chooser: Chooser, nat: usize, votes: usize, conf: usize, faults: bool,
     w.faults.enabled = faults;
     w.fault_filter = Some(Box::new(move |d: &Datagram| d.to == ext && d.sent_at < T0 + 10 * SEC));
     let a = w.add_node(cfg);
-    let liar = SocketAddrV4::new(Ipv4Addr::new(6, 6, 6, 6), 666);
+    // what the lying minority reports: an address that sorts below the true one, above it, or the
+    // true IP with a higher port (a second NAT mapping)
+    let liar = match votes {
+        3 => SocketAddrV4::new(Ipv4Addr::new(250, 6, 6, 6), 666),
+        4 => SocketAddrV4::new(ip, 65000),
+        _ => SocketAddrV4::new(Ipv4Addr::new(6, 6, 6, 6), 666),
+    };
     let mut self_ping_seen = false;
     let mut server_at: Option<u64> = None;
     let mut firewalled_cleared_at: Option<u64> = None;
     let start = w.now;
     let h = start + 35 * MIN;
-    let mut net = net;
     let mut next_sample = start;
     let mut remapped = false;
     let mut lookup_issued = false;
@@ -454,13 +467,18 @@ fn part_d(chooser: Chooser, nat: usize, votes: usize, conf: usize, faults: bool,
             w.send_raw(net.eps[0].addr, to, krpc::q_ping(&probe_tid, &net.eps[0].id));
             probe_sent = true;
         }
+        if !sibling_pinged && w.now >= start + 12 * MIN {
+            let to = w.nodes[a].cfg.addr();
+            w.send_raw(sibling, to, krpc::q_ping(&[0x73, 0x69, 0x62, 0x6c], &net.eps[4].id));
+            sibling_pinged = true;
+        }
         if !filter_probe_sent && w.now >= start + 33 * MIN {
             let to = w.nodes[a].cfg.addr();
             w.send_raw(vetoed, to, krpc::q_get_peers(&[0x76, 0x65, 0x74, 0x6f], &[0x66; 20], &T, false));
             w.send_raw(allowed, to, krpc::q_get_peers(&[0x61, 0x6c, 0x6c, 0x6f], &[0x67; 20], &T, false));
             filter_probe_sent = true;
         }
-        let stop = [start + 5 * MIN, start + 6 * MIN, start + 10 * MIN, start + 24 * MIN, start + 32 * MIN, start + 33 * MIN, h].into_iter().filter(|t| *t > w.now).min().unwrap_or(h);
+        let stop = [start + 5 * MIN, start + 6 * MIN, start + 10 * MIN, start + 12 * MIN, start + 24 * MIN, start + 32 * MIN, start + 33 * MIN, h].into_iter().filter(|t| *t > w.now).min().unwrap_or(h);
         let Some(ev) = w.step(stop) else {
             if stop >= h {
                 break;
@@ -483,7 +501,7 @@ fn part_d(chooser: Chooser, nat: usize, votes: usize, conf: usize, faults: bool,
                         if let Some(bytes) = net.honest_reply(i, &q, dgram.from, w.now) {
                             // rewrite the reported address for liars
                             let lies = match votes {
-                                1 => i == 0,
+                                1 | 3 | 4 => i == 0,
                                 2 => i < 2,
                                 _ => false,
                             };
@@ -670,7 +688,7 @@ fn run(tier: Tier, shard: usize, nshards: usize, _seed: u64) -> Partial {
     // (d)
     for conf in 0..3 {
         for nat in 0..4 {
-            for votes in 0..3 {
+            for votes in 0..VOTES.len() {
                 if !mine() {
                     continue;
                 }
